@@ -272,17 +272,28 @@ func genExportTemplate(c *ctx) (string, error) {
 		}
 		return fl.Type.Params.List[0].Names[0].Name
 	}
-	shapeOK := func(name, want string) bool {
+	shapeOK := func(name string, wants ...string) bool {
 		fl := funcs[name]
 		if fl == nil {
 			return false
 		}
-		return exprString(c, fl.Body) == strings.ReplaceAll(want, "§", litParam(fl))
+		for _, want := range wants {
+			if exprString(c, fl.Body) == strings.ReplaceAll(want, "§", litParam(fl)) {
+				return true
+			}
+		}
+		return false
 	}
-	fmt.Fprintf(&sb, "/-- `NullableString` is: nil ↦ \"\", otherwise the string pointed to -/\ndef nullableStringShape : Bool := %v\n",
-		shapeOK("NullableString", `{ if § == nil { return "" } return *§ }`))
-	fmt.Fprintf(&sb, "/-- `NullableUnix` is: nil ↦ \"\", otherwise the Unix seconds in decimal -/\ndef nullableUnixShape : Bool := %v\n",
-		shapeOK("NullableUnix", `{ if § == nil { return "" } return fmt.Sprintf("%d", §.Unix()) }`))
+	// a body of another shape is not judged here: the file falls back to the snapshot and the byte comparison decides
+	if !shapeOK("NullableString", `{ if § == nil { return "" } return *§ }`) {
+		return "", fmt.Errorf("NullableString has an unrecognised body")
+	}
+	if !shapeOK("NullableUnix", `{ if § == nil { return "" } return fmt.Sprintf("%d", §.Unix()) }`,
+		`{ if § == nil { return "" } return strconv.FormatInt(§.Unix(), 10) }`) {
+		return "", fmt.Errorf("NullableUnix has an unrecognised body")
+	}
+	sb.WriteString("/-- `NullableString` is: nil ↦ \"\", otherwise the string pointed to -/\ndef nullableStringShape : Bool := true\n")
+	sb.WriteString("/-- `NullableUnix` is: nil ↦ \"\", otherwise the Unix seconds in decimal -/\ndef nullableUnixShape : Bool := true\n")
 	// FormatDirectionID: switch d { case CONST: return "…" … default: return "…" }
 	{
 		fl := funcs["FormatDirectionID"]
